@@ -31,6 +31,16 @@ type Clause struct {
 	Props  []string // clause-level property tags: the obligation counts only for these properties
 }
 
+// CallSpec: an obligation that must hold at every call of a function or method
+// with the given name inside the function under contract; the clause speaks
+// about the function's parameters and the call's arguments.
+type CallSpec struct {
+	Name   string
+	Args   [][2]string // names and types of the call arguments (in order)
+	Vars   [][2]string // locals of the enclosing function read at the call site
+	Clause *Clause
+}
+
 type LoopSpec struct {
 	Vars       [][2]string // name, type
 	Invariants []*Clause
@@ -61,6 +71,8 @@ type Contract struct {
 	Auto       bool // default contract created by a sweep directive
 	NonNil     bool // all pointer parameters are required to be non-nil
 	Exhaustive bool // decided by running the real function on every input of its (small) domain
+	Calls      []*CallSpec // obligations at call sites inside the function
+	NoSafety   bool        // do not generate safety obligations (absence of panics is assumed)
 	NilRecv    bool
 	IsLemma    bool
 	LemmaSig   string
@@ -281,6 +293,38 @@ func parseContractFile(rel, src string) (*pkgSpec, error) {
 				}
 			case "nilrecv":
 				cur.NilRecv = true
+			case "call":
+				// call <callee name> args <a T, b U> requires <expr>
+				name, r2 := splitWord(rest)
+				w2, r3 := splitWord(r2)
+				cs := &CallSpec{Name: name}
+				if w2 == "args" {
+					i := strings.Index(r3, " requires ")
+					if i < 0 {
+						return nil, fmt.Errorf("line %d: call <name> args <decls> requires <expr>", ln)
+					}
+					decl := r3[:i]
+					// optional: ... vars <local T, ...> (locals of the function, read at the call site)
+					if j := strings.Index(decl, " vars "); j >= 0 {
+						for _, d := range splitTop(decl[j+len(" vars "):], ',') {
+							n, t := splitWord(strings.TrimSpace(d))
+							cs.Vars = append(cs.Vars, [2]string{n, t})
+						}
+						decl = decl[:j]
+					}
+					for _, d := range splitTop(decl, ',') {
+						n, t := splitWord(strings.TrimSpace(d))
+						cs.Args = append(cs.Args, [2]string{n, t})
+					}
+					cs.Clause = &Clause{Text: strings.TrimSpace(r3[i+len(" requires "):]), Line: ln, Props: clauseProps}
+				} else if w2 == "requires" {
+					cs.Clause = &Clause{Text: r3, Line: ln, Props: clauseProps}
+				} else {
+					return nil, fmt.Errorf("line %d: call <name> [args <decls>] requires <expr>", ln)
+				}
+				cur.Calls = append(cur.Calls, cs)
+			case "nosafety":
+				cur.NoSafety = true
 			case "nonnil":
 				cur.NonNil = true
 			case "exhaustive":
@@ -745,6 +789,16 @@ var _ = verif_fresh
 		if c.AllocExpr != nil {
 			emit(c.AllocExpr, fmt.Sprintf("verif_%s_alloc", c.ID), plist, "int")
 		}
+		for k, cs := range c.Calls {
+			var as []string
+			for _, a := range cs.Args {
+				as = append(as, a[0]+" "+a[1])
+			}
+			for _, a := range cs.Vars {
+				as = append(as, a[0]+" "+a[1])
+			}
+			emit(cs.Clause, fmt.Sprintf("verif_%s_call%d", c.ID, k), join(plist, strings.Join(as, ", ")), "bool")
+		}
 		for k, cl := range c.Modifies {
 			// a modifies expression denotes an object (pointer); typed as any via a generic wrapper
 			cl.FnName = fmt.Sprintf("verif_%s_mod%d", c.ID, k)
@@ -783,20 +837,29 @@ var _ = verif_fresh
 		paths = append(paths, p)
 	}
 	sort.Strings(paths)
+	// identifiers the generated code leaves unresolved are package names
+	unresolved := map[string]bool{}
+	if pf, err := parser.ParseFile(token.NewFileSet(), "elab.go", "package "+ps.name+"\n"+code, 0); err == nil {
+		for _, id := range pf.Unresolved {
+			unresolved[id.Name] = true
+		}
+	} else {
+		return "", fmt.Errorf("%s/%s: elaborated code does not parse: %v", ps.dir, contractFile, err)
+	}
 	for _, p := range paths {
 		name := imports[p]
 		local := name
 		if local == "" {
 			local = filepath.Base(p)
 			// packages whose name differs from the last path element need an explicit name in the contract file
-			if strings.HasPrefix(local, "v") && len(local) <= 3 {
+			if len(local) >= 2 && len(local) <= 3 && local[0] == 'v' && strings.Trim(local[1:], "0123456789") == "" {
 				local = filepath.Base(filepath.Dir(p))
 			}
 		}
 		if local == "_" || local == "." {
 			continue
 		}
-		if !usesIdent(code, local) {
+		if !unresolved[local] {
 			continue
 		}
 		if name != "" {
